@@ -27,7 +27,7 @@ rm -f zz_seeded_demo_test.go
 git apply "$D/patch.diff"
 # run the checks from a snapshot of /verif so that concurrent edits there do not disturb the build
 SNAP=/tmp/mv-verif-$NAME-$$
-mkdir -p "$SNAP" && cp -r /verif/check /verif/sim /verif/known_findings.json /verif/findings "$SNAP"/ 2>/dev/null
+mkdir -p "$SNAP" && cp -r ${VERIF_SNAP:-/verif}/check ${VERIF_SNAP:-/verif}/sim ${VERIF_SNAP:-/verif}/known_findings.json ${VERIF_SNAP:-/verif}/findings "$SNAP"/ 2>/dev/null
 cd "$SNAP"
 for chk in "$@"; do
   OUT=$(VERIF_REPO="$W" VERIF_EVIDENCE_DIR=/tmp/mv-ev-$$ ./check $chk 2>&1)
